@@ -3,6 +3,8 @@
 Body commands: set, incr, get, delete, and the other read-modify-writes of the transaction backend: expire (buffers the backend's
 current value and writes it back at commit) and set(exist=True|False) (decides on the key's presence); explicit `tx.commit()` /
 `tx.rollback()` on the Transaction object in the middle of a body (the body goes on: a body is a sequence of segments).
+Multi-key writes `cache.set_many` / `cache.delete_many` inside a transaction (`setm` / `delm`; = sequences of single-key writes: locks key by
+key through `_get_lock_key`, in serializable mode the global lock also when they are the first write).
 Nested blocks (`nin` .. `nout`), also inner blocks that are LEFT BY AN EXCEPTION WHICH THE ENCLOSING BODY CATCHES (`nin` .. `nfail`): nested
 blocks are flat, the failure of an inner block does not mark the transaction.  Block forms: context manager on an object of its own
 ("ctx"), a call of one decorated function shared by all tasks ("dec"), context manager on ONE context object shared by all tasks
@@ -1183,6 +1185,8 @@ def run(chk: Check) -> int:
                 "(Exception / non-Exception BaseException subclass defining __len__ / __bool__) leaving a decorated call / a context-manager block - "
                 "with buffered writes, holding locks, with a nested block -, an inner block (nested context-manager block / decorated call made inside "
                 "the transaction) left by an exception that the enclosing body caught, a body that returned and committed after that, "
+                "a multi-key write (set_many / delete_many) inside a transaction - as the first write of a locking transaction, and a serializable "
+                "transaction committing it with another task released between the commit's backend commands -, "
                 "two tasks inside ONE shared context object at once (one failing, the other committing; the object re-entered by its own task), "
                 "an explicit tx.commit() / tx.rollback() in the "
                 "middle of a body, a lock given back by it and taken again later in the same block, a block ended by an exception after an explicit "
@@ -1202,7 +1206,8 @@ def run(chk: Check) -> int:
                    "non-Exception BaseExceptions), exception classes whose __bool__ / __len__ raise (falsy exception objects ARE modelled and "
                    "exercised), more than one transaction block per task, TTL values (expire is modelled as what it does to "
                    "values; another task's command between the set_many commands of the TTL groups of one commit), non-integer values inside the block, "
-                   "the multi-key commands (set_many / delete_many / delete_match / get_many issued by a body - so another transaction's delete_match('*') "
+                   "the pattern / multi-key READ commands (delete_match / get_many / scan issued by a body; set_many and delete_many ARE in the grammar, for "
+                   "transactional tasks - so another transaction's delete_match('*') "
                    "removing :tx_lock: keys is not exercised), commands of one body running concurrently with each other (gather inside a block), "
                    "tasks spawned inside a block (they inherit the transaction through the copied context), an inner block's failure caught by the "
                    "body when it is LockedError or a cancellation (caught inner failures are the body's own exceptions of the four kinds), "
